@@ -90,7 +90,7 @@ def requirements(tier):
         "matrix:qsw": 3000 * k, "matrix:tnw": 3000 * k, "matrix:hyperbolic": 1000 * k, "matrix:elliptic": 1000 * k,
         "matrix:expanded": 1000 * k,
         "frame:orientation-None": 100 * k, "frame:orientation-QSW": 100 * k, "frame:orientation-TNW": 100 * k,
-        "frame:origin": 900 * k, "frame:roundtrip": 900 * k, "frame:axes": 900 * k, "frame:moving": 120 * k, "frame:static": 20 * k,
+        "frame:reference-orbit-about-the-moon": 20 * k, "frame:origin": 900 * k, "frame:roundtrip": 900 * k, "frame:axes": 900 * k, "frame:moving": 120 * k, "frame:static": 20 * k,
         "mandv:impulsive": 1500 * k, "mandv:continuous": 1500 * k, "mandv:tag-QSW": 500 * k, "mandv:tag-TNW": 500 * k, "mandv:tag-None": 500 * k,
         "mandv:hyperbolic": 300 * k, "mandv:duration-multi-day": 200 * k, "mandv:duration-whole-days": 200 * k, "mandv:check-tiling": 1000 * k,
         "dkep:judged": 3000 * k, "dkep:da": 1000 * k, "dkep:di": 1000 * k, "dkep:dOmega": 1000 * k, "dkep:realised": 2000 * k,
@@ -299,6 +299,18 @@ def case_frames(ctx, job, idx, rng, st):
     mixed = ref_frame_name != "EME2000" and rng.random() < 0.4  # parent differs from the frame of the orbit
     parent_name = "EME2000" if mixed else ref_frame_name
     moving = rng.random() < 0.75
+    lunar = idx % 6 == 5
+    if lunar:
+        # the reference orbit is given about another body (a lunar orbiter in the Moon-centred frame of
+        # beyond.env.solarsystem), the frame is attached under the default parent EME2000: its centre hangs under the MOON
+        from beyond.env import solarsystem
+        from beyond.constants import Moon
+
+        solarsystem.get_frame("Moon")
+        ref_frame_name, parent_name, mixed, moving = "Moon", "EME2000", True, True
+        mu = float(Moon.mu)
+        k = dict(k, a=rng.uniform(1.9e6, 9e6), e=rng.uniform(1e-3, 0.05))
+        ctx.count("frame:reference-orbit-about-the-moon")
     if not moving:
         # a fixed point has no date of its own: keep it in its own frame (the axes of a "static" local frame
         # seen from another, slowly rotating, frame are not defined by the statement)
@@ -310,7 +322,7 @@ def case_frames(ctx, job, idx, rng, st):
     ctx.count("frame:moving" if moving else "frame:static")
     ctx.count("frame:parent-" + ("mixed" if mixed else "same"))
     if moving:
-        propagator = rng.choice(["Kepler", "Kepler", "Kepler", "J2", "KeplerNum"])
+        propagator = rng.choice(["Kepler", "Kepler", "Kepler", "J2", "KeplerNum"]) if not lunar else "Kepler"
         ctx.count("frame:propagator-" + propagator)
         if propagator == "KeplerNum":
             # a numerical propagator works (and answers) in its own frame, EME2000 by default, whatever the frame of the orbit
